@@ -19,6 +19,12 @@ def main():
         'geopackage_levels': {'type': 'geopackage', 'directory': os.path.join(base, 'gpkgs'), 'levels': True, 'table_name': 't'},
         'compact1': {'type': 'compact', 'version': 1},
         'compact2': {'type': 'compact', 'version': 2},
+        # two cache definitions on ONE store (a second configuration, a seeding configuration with its own names, ...):
+        # the lock belongs to the store, both definitions have to use the same lock files
+        'shared_a': {'type': 'file', 'directory': os.path.join(base, 'shared_dir')},
+        'shared_b': {'type': 'file', 'directory': os.path.join(base, 'shared_dir')},
+        'mbshared_a': {'type': 'mbtiles', 'filename': os.path.join(base, 'shared.mbtiles')},
+        'mbshared_b': {'type': 'mbtiles', 'filename': os.path.join(base, 'shared.mbtiles')},
     }
     conf = {
         'globals': {'cache': {'base_dir': os.path.join(base, 'cache_data'), 'lock_dir': os.path.join(base, 'locks'),
